@@ -1029,6 +1029,12 @@ func (x *Exec) enterBlock(st *State, from, to *ssa.BasicBlock) {
 		}
 		if spec == nil {
 			spec = &LoopSpec{N: fmt.Sprint(n)}
+			if !back {
+				// a loop nobody annotated (new code, or a helper inlined here): everything derived after it is
+				// imprecise; recorded as a failed proof-structure obligation so that the function is treated as
+				// restructured (fallback decider) rather than as violating its contract
+				x.queries = append(x.queries, &Query{Name: fmt.Sprintf("%s/loop%d.unannotated", x.oblPrefix, n), Detail: "loop in " + funcKey(fr.fn) + " has no invariant in the contract (results after it are imprecise)", Goal: TTrue})
+			}
 		}
 		if back {
 			lc := fr.loopOn[to.Index]
